@@ -260,7 +260,8 @@ def catalogue(rng):
         t = "cqm"
         k = T(["con_unknown", "remove_con", "fix", "fix2", "addvar", "addcon_dup", "addcon_bad", "sense", "setobj", "bounds",
                "relabel_con", "discrete", "discrete2", "lhs_unknown", "lhs_selfloop", "lhs_bias", "violations", "substitute",
-               "from_other", "weight", "lhs_remove", "obj_unknown", "lhs_energy"])
+               "from_other", "weight", "lhs_remove", "obj_unknown", "lhs_energy", "cqm_chvt", "cqm_flip", "cqm_remove_variable",
+               "lhs_quad_unknown", "lhs_iter", "lhs_info"])
         if k == "con_unknown":
             return dict(target=t, path=["constraints", ["item", T(UNKNOWN[:4])]], args=None, expect="raise")
         if k == "remove_con":
@@ -292,7 +293,20 @@ def catalogue(rng):
                         kwargs={"label": T(["dd", "disc"])}, expect="raise")
         if k == "discrete2":
             return dict(target=t, path=["add_discrete"], args=[["n1", "n2"]], kwargs={"label": "c0"}, expect="raise")
+        if k == "cqm_chvt":
+            return dict(target=t, path=["change_vartype"], args=[T(["SPIN", "BINARY", "INTEGER", "NOPE", NONE]), T(UNKNOWN[:5])], expect="raise")
+        if k == "cqm_flip":
+            return dict(target=t, path=["flip_variable"], args=[T(UNKNOWN[:5])], expect="raise")
+        if k == "cqm_remove_variable":
+            return dict(target=t, path=["remove_variable"], args=[T(UNKNOWN[:5])], expect="raise")
         lhs = ["constraints", ["item", T(["c0", "c1", "soft"])], "lhs"]
+        if k == "lhs_quad_unknown":
+            return dict(target=t, path=lhs + [T(["add_quadratic", "get_quadratic"])], args=[T(UNKNOWN[:5]), "x"] + ([1.0] if rng.random() < 0.5 else []),
+                        expect="raise")
+        if k == "lhs_iter":
+            return dict(target=t, path=lhs + ["iter_neighborhood"], args=[T(UNKNOWN[:5])], consume=True, expect="raise")
+        if k == "lhs_info":
+            return dict(target=t, path=lhs + [T(["vartype", "lower_bound", "upper_bound"])], args=[T(UNKNOWN[:5])], expect="raise")
         if k == "lhs_unknown":
             return dict(target=t, path=lhs + [T(["add_linear", "set_linear", "get_linear", "degree"])], args=[T(UNKNOWN[:5])] + [1.0], expect="raise")
         if k == "lhs_selfloop":
@@ -320,7 +334,10 @@ def catalogue(rng):
         t = "dqm"
         k = T(["addvar", "lin_case", "lin_case_get", "set_linear", "quad_case", "quad_case_get", "quad_self", "quad_shape", "quad_dict",
                "get_quad", "energies_neg", "energies_big", "energies_shape", "num_cases", "unknown", "relabel", "get_cases", "degree",
-               "energies_types"])
+               "energies_types", "dqm_lineq"])
+        if k == "dqm_lineq":
+            bad = T([[["u", 0, 1.0], ["zz"]], [["u", 9, 1.0]], [["nope", 0, 1.0]], "abc", [[1, 2]], NONE, [["u", -1, 1.0]]])
+            return dict(target=t, path=["add_linear_equality_constraint"], args=[bad, T([1.0, "x"]), T([0.0, "y"])], expect="any")
         if k == "addvar":
             return dict(target=t, path=["add_variable"], args=[T([0, -1, -5, "x", NONE, 1.5, ["#", "neg", ["#", "big", 40]]])], expect="raise")
         badcase = T([-1, -3, 3, 4, 100, ["#", "big", 31], ["#", "neg", ["#", "big", 31]], ["#", "big", 40], "x", NONE])
@@ -602,3 +619,156 @@ def judge(call, rec):
         if rb and rec.get("readback") != rb["value"]:
             return f"the value written by a valid call reads back as {rec.get('readback')} instead of {rb['value']}", "readback"
     return None
+
+
+# ----------------------------------------------------------------------------
+# Coverage table read by translators/c20_py_surface.py (fail-closed): every method of the Cython
+# classes that takes an argument must be listed here, either with the catalogue entries that reach
+# it - (family, name of the called attribute) pairs the generator above must be able to produce -
+# or with the reason why it is out of scope.  A method added to a .pyx without a line here, or a
+# line whose catalogue entry can no longer be generated, breaks the tie.
+# ----------------------------------------------------------------------------
+def _cat(*pairs):
+    return ("cat", list(pairs))
+
+
+def _exempt(reason):
+    return ("exempt", reason)
+
+
+_LOADER = "raw-buffer loader behind from_file; truncated / inconsistent files are property C16's stream"
+SURFACE = {
+    # ---- cyqmbase (shared by BQM and QM) ----
+    "cyqmbase.offset": _exempt("property setter typed bias_type: Cython's own conversion rejects non-numbers"),
+    "cyqmbase.degree": _cat(("bqm", "degree")),
+    "cyqmbase._energies": _exempt("typed helper behind energies()"),
+    "cyqmbase.energies": _cat(("bqm", "energies"), ("qm", "energies")),
+    "cyqmbase.get_linear": _cat(("bqm", "get_linear"), ("qm", "get_linear")),
+    "cyqmbase.get_quadratic": _cat(("bqm", "get_quadratic")),
+    "cyqmbase._ineighborhood": _cat(("bqm", "_ineighborhood"), ("qm", "_ineighborhood")),
+    "cyqmbase.iter_neighborhood": _cat(("bqm", "iter_neighborhood")),
+    "cyqmbase.lower_bound": _cat(("qm", "lower_bound")),
+    "cyqmbase.upper_bound": _cat(("qm", "upper_bound")),
+    "cyqmbase.vartype": _cat(("qm", "vartype")),
+    "cyqmbase.nbytes": _exempt("boolean flag only"),
+    "cyqmbase.reduce_linear": _exempt("takes a function and an initializer, no index / label / array"),
+    "cyqmbase.reduce_quadratic": _exempt("takes a function and an initializer, no index / label / array"),
+    "cyqmbase.reduce_neighborhood": _cat(("bqm", "reduce_neighborhood"), ("qm", "reduce_neighborhood")),
+    "cyqmbase.relabel_variables": _cat(("bqm", "relabel_variables")),
+    "cyqmbase.remove_interaction": _cat(("bqm", "remove_interaction"), ("qm", "remove_interaction")),
+    "cyqmbase.remove_variable": _cat(("bqm", "remove_variable"), ("qm", "remove_variable")),
+    "cyqmbase.scale": _cat(("bqm", "scale")),
+    # ---- cyBQM ----
+    "cybqm.add_linear": _cat(("bqm", "add_linear")),
+    "cybqm.add_linear_equality_constraint": _cat(("bqm", "add_linear_equality_constraint")),
+    "cybqm.add_linear_from_array": _cat(("bqm", "add_linear_from_array")),
+    "cybqm.add_offset_from_array": _cat(("bqm", "add_offset_from_array")),
+    "cybqm.add_quadratic": _cat(("bqm", "add_quadratic")),
+    "cybqm.add_quadratic_from_arrays": _cat(("bqm", "add_quadratic_from_arrays")),
+    "cybqm.add_quadratic_from_dense": _cat(("bqm", "add_quadratic_from_dense")),
+    "cybqm.add_variable": _exempt("any hashable label is a legitimate new variable; bias typed bias_type"),
+    "cybqm.change_vartype": _cat(("bqm", "change_vartype")),
+    "cybqm._from_numpy_vectors": _exempt("typed helper behind from_numpy_vectors()"),
+    "cybqm.from_numpy_vectors": _cat(("bqm", "from_numpy_vectors")),
+    "cybqm.resize": _cat(("bqm", "resize")),
+    "cybqm.set_linear": _cat(("bqm", "set_linear")),
+    "cybqm.set_quadratic": _cat(("bqm", "set_quadratic")),
+    "cybqm.to_numpy_vectors": _exempt("read-only export; variable_order mistakes are property C02's stream"),
+    "cybqm._update": _exempt("typed cyBQM helper behind update()"),
+    "cybqm.update": _cat(("bqm", "update")),
+    "cybqm.vartype": _exempt("optional label ignored: a BQM has one vartype"),
+    # ---- cyQM ----
+    "cyqm._ilower_triangle_load": _exempt(_LOADER),
+    "cyqm._ivartypes_load": _exempt(_LOADER),
+    "cyqm.add_linear": _cat(("qm", "add_linear")),
+    "cyqm.add_linear_from_array": _cat(("qm", "add_linear_from_array")),
+    "cyqm.add_quadratic": _cat(("qm", "add_quadratic")),
+    "cyqm.add_quadratic_from_arrays": _cat(("qm", "add_quadratic_from_arrays")),
+    "cyqm.add_quadratic_from_iterable": _cat(("qm", "add_quadratic_from")),
+    "cyqm.add_variable": _cat(("qm", "add_variable")),
+    "cyqm.change_vartype": _cat(("qm", "change_vartype")),
+    "cyqm.from_cybqm": _exempt("typed cyBQM argument"),
+    "cyqm.set_linear": _cat(("qm", "set_linear")),
+    "cyqm.set_lower_bound": _cat(("qm", "set_lower_bound")),
+    "cyqm.set_upper_bound": _cat(("qm", "set_upper_bound")),
+    "cyqm.set_quadratic": _cat(("qm", "set_quadratic")),
+    "cyqm.update": _cat(("qm", "update")),
+    # ---- cyConstrainedQuadraticModel ----
+    "cycqm.add_constraint_from_iterable": _cat(("cqm", "add_constraint_from_iterable")),
+    "cycqm.add_constraint_from_model": _cat(("cqm", "add_constraint")),
+    "cycqm.add_variables": _cat(("cqm", "add_variable")),
+    "cycqm.change_vartype": _cat(("cqm", "change_vartype")),
+    "cycqm.from_discrete_quadratic_model": _exempt("conversion constructor taking a whole DQM object and a relabelling function"),
+    "cycqm.fix_variable": _cat(("cqm", "fix_variable")),
+    "cycqm.fix_variables": _cat(("cqm", "fix_variables")),
+    "cycqm.flip_variable": _cat(("cqm", "flip_variable")),
+    "cycqm._ivarinfo_load": _exempt(_LOADER),
+    "cycqm.lower_bound": _cat(("cqm", "lower_bound")),
+    "cycqm.upper_bound": _cat(("cqm", "upper_bound")),
+    "cycqm.vartype": _cat(("cqm", "vartype")),
+    "cycqm.remove_constraint": _cat(("cqm", "remove_constraint")),
+    "cycqm.remove_variable": _cat(("cqm", "remove_variable")),
+    "cycqm.set_lower_bound": _cat(("cqm", "set_lower_bound")),
+    "cycqm.set_upper_bound": _cat(("cqm", "set_upper_bound")),
+    "cycqm._set_objective_from_cyqm": _exempt("typed helper behind set_objective()"),
+    "cycqm.set_objective": _cat(("cqm", "set_objective")),
+    # ---- cyExpression / cyConstraintView ----
+    "cyexpr.offset": _exempt("property setter typed bias_type"),
+    "cyexpr.add_linear": _cat(("cqm", "add_linear")),
+    "cyexpr.add_quadratic": _cat(("cqm", "add_quadratic")),
+    "cyexpr.add_variable": _exempt("forwards *args to the parent's add_variable (catalogued there)"),
+    "cyexpr.degree": _cat(("cqm", "degree")),
+    "cyexpr._energies": _exempt("typed helper behind energies()"),
+    "cyexpr.energies": _cat(("cqm", "energy")),
+    "cyexpr._iindices_load": _exempt(_LOADER),
+    "cyexpr._ilinear_load": _exempt(_LOADER),
+    "cyexpr._iquadratic_load": _exempt(_LOADER),
+    "cyexpr._into_file": _exempt("serialisation: property C16"),
+    "cyexpr._from_file": _exempt("serialisation: property C16"),
+    "cyexpr.get_linear": _cat(("cqm", "get_linear")),
+    "cyexpr.get_quadratic": _cat(("cqm", "get_quadratic")),
+    "cyexpr.iter_neighborhood": _cat(("cqm", "iter_neighborhood")),
+    "cyexpr.lower_bound": _cat(("cqm", "lower_bound")),
+    "cyexpr.upper_bound": _cat(("cqm", "upper_bound")),
+    "cyexpr.vartype": _cat(("cqm", "vartype")),
+    "cyexpr.remove_interaction": _cat(("cqm", "remove_interaction")),
+    "cyexpr.remove_variable": _cat(("cqm", "remove_variable")),
+    "cyexpr.set_linear": _cat(("cqm", "set_linear")),
+    "cyexpr.set_quadratic": _cat(("cqm", "set_quadratic")),
+    "cyexpr.mark_discrete": _exempt("boolean flag only"),
+    "cyexpr.set_weight": _exempt("weight / penalty validation is catalogued through cqm.add_constraint_from_iterable(weight=, penalty=)"),
+    # ---- cyDiscreteQuadraticModel ----
+    "cydqm.offset": _exempt("property setter typed bias_type"),
+    "cydqm.add_linear_equality_constraint": _cat(("dqm", "add_linear_equality_constraint")),
+    "cydqm.add_variable": _cat(("dqm", "add_variable")),
+    "cydqm.degree": _cat(("dqm", "degree")),
+    "cydqm.energies": _cat(("dqm", "energies")),
+    "cydqm._from_numpy_vectors": _exempt("typed helper behind from_numpy_vectors()"),
+    "cydqm.from_numpy_vectors": _cat(("dqm", "from_numpy_vectors")),
+    "cydqm.get_linear": _cat(("dqm", "get_linear")),
+    "cydqm.get_linear_case": _cat(("dqm", "get_linear_case")),
+    "cydqm.get_quadratic": _cat(("dqm", "get_quadratic")),
+    "cydqm.get_quadratic_case": _cat(("dqm", "get_quadratic_case")),
+    "cydqm.num_cases": _cat(("dqm", "num_cases")),
+    "cydqm.set_linear": _cat(("dqm", "set_linear")),
+    "cydqm.set_linear_case": _cat(("dqm", "set_linear_case")),
+    "cydqm.set_quadratic": _cat(("dqm", "set_quadratic")),
+    "cydqm.set_quadratic_case": _cat(("dqm", "set_quadratic_case")),
+    "cydqm.to_numpy_vectors": _exempt("read-only export, boolean flag only"),
+}
+
+
+def reachable_entries(draws=12000, seed=20):
+    """(family, called attribute) pairs the catalogue generates (deterministic sweep)"""
+    import random
+
+    class R(random.Random):
+        pass
+    rng = R(seed)
+    out = set()
+    for _ in range(draws):
+        c = catalogue(rng)
+        t = c["target"]
+        fam = "bqm" if t.startswith("bqm") else "qm" if t.startswith("qm") else t
+        out.add((fam, [p for p in c["path"] if isinstance(p, str)][-1]))
+    return out
